@@ -63,6 +63,10 @@ def run_instance(inst):
                 full = list(H.source_sink_edges) + ign
                 w = H.get_width(edges_to_ignore=full)
                 ev["ret"] = int(w) if w is not None else NONE
+            elif name == "width_raw":         # the same query WITHOUT the synthetic edges in the ignore list (not judged: the
+                ign = [tuple(inv.get(x, x) for x in e) for e in op[1]]      # property speaks about the convention above);
+                w = H.get_width(edges_to_ignore=ign) if ign else H.get_width()   # it only warms whatever the object caches
+                ev["ret"] = int(w) if w is not None else NONE
             elif name == "width_default":     # no argument at all: cached variant
                 w = H.get_width()
                 ev["ret"] = int(w) if w is not None else NONE
